@@ -1371,6 +1371,135 @@ def run_witnesses(ctx):
             report_problems(ctx, tr, inp, res, witness_key=key)
 
 
+# ---------------------------------------------------------------------------------------------------------------
+# (d) the Coq SPECIFICATION `Climb.climb` (Model/Climb.v, precedence climbing over tokens; C16_climb_partial proves it equal
+#     to the reference reading for non-overlapping tables) evaluated on the generated tables / inputs, against the Python
+#     precedence parser AND the implementation, on the rendering (tokens joined by single spaces) of the token list
+# ---------------------------------------------------------------------------------------------------------------
+CLIMB_PREAMBLE = """From Coq Require Import List NArith Bool.
+From PP Require Import Model.Str Model.Results Model.Climb.
+Import ListNotations.
+"""
+COQ_CLEVEL = {"postfix": "CPostfix", "prefix": "CPrefix", "binl": "CBinL", "binr": "CBinR", "juxl": "CJuxL", "juxr": "CJuxR",
+              "ternl": "CTernL", "ternr": "CTernR"}
+CLIMB_MAX_QUICK, CLIMB_MAX_THOROUGH = 700, 6000
+
+
+def coq_ctable(spec):
+    lv = []
+    for l in spec["levels"]:
+        ops = " ".join("[" + "; ".join(vlib.coq_str(s) for s in op_spellings(o)) + "]" for o in l[1:])
+        lv.append(("%s %s" % (COQ_CLEVEL[l[0]], ops)).strip())
+    return "[" + "; ".join(lv) + "]"
+
+
+def coq_tokens(T, toks):
+    return "[" + "; ".join(("TOperand %s" if T.is_base(t) else "TOp %s") % vlib.coq_str(t) for t in toks) + "]"
+
+
+def coq_tree_to_py(v):
+    if isinstance(v, tuple) and v[0] == "TStr":
+        return vlib.from_coq_str(v[1])
+    if isinstance(v, tuple) and v[0] == "TList":
+        return [coq_tree_to_py(x) for x in v[1]]
+    raise ValueError("unexpected tree %r" % (v,))
+
+
+def climb_in_theorem_scope(spec):
+    """tables to which C16_climb_partial applies syntactically (ctable_of / base_chars / par_spelling defined)"""
+    return (spec["base"] == "int" and all(l[0] in ("postfix", "prefix", "binl", "binr", "juxr") for l in spec["levels"])
+            and all(o[0] in ("lit", "mf") for l in spec["levels"] for o in l[1:]))
+
+
+def run_climb_tie(ctx, runs, cases):
+    limit = CLIMB_MAX_THOROUGH if ctx.thorough else CLIMB_MAX_QUICK
+    sel, seen = [], set()
+    for (ti, ii), (inp, res) in sorted(cases.items()):
+        T = runs[ti].T
+        toks = T.tokenize(inp)
+        if not toks or T.lp in toks or T.rp in toks:
+            continue
+        rendered = " ".join(toks)
+        if (ti, rendered) in seen or T.tokenize(rendered) != toks:
+            continue
+        seen.add((ti, rendered))
+        sel.append((ti, toks, rendered))
+        if len(sel) >= limit:
+            break
+    ctx.stat("climb_cases", len(sel))
+    if not sel:
+        return
+    tabs = sorted({ti for ti, _, _ in sel})
+    scope = [ti for ti in tabs if climb_in_theorem_scope(runs[ti].spec)]
+    dws = "[9;10;13;32]%N"
+    digits = vlib.coq_str("0123456789")
+    exprs = ["Climb.climb_all %s %s" % (coq_ctable(runs[ti].spec), coq_tokens(runs[ti].T, toks)) for ti, toks, _ in sel]
+    exprs += ["no_overlapb %s %s %s %s" % (dws, digits, vlib.coq_str(runs[ti].T.lp), coq_ctable(runs[ti].spec)) for ti in scope]
+    try:
+        import os
+        vals = vlib.coq_eval_terms("c16_climb_%d" % os.getpid(), CLIMB_PREAMBLE, exprs, timeout=900)
+    except Exception as e:
+        ctx.broken("correspondence:Climb.climb evaluation failed (%s: %s)" % (type(e).__name__, str(e)[-300:].replace("\n", " ")))
+        return
+    coq_no_overlap = {ti: bool(v) for ti, v in zip(scope, vals[len(sel):])}
+    for ti in scope:
+        ctx.stat("climb_tables_in_theorem_scope")
+        if coq_no_overlap[ti]:
+            ctx.stat("climb_tables_no_overlapb_true")
+            if runs[ti].T.overlaps():
+                ctx.broken("correspondence:no_overlapb holds in Coq for table %s but the Python table has overlapping spellings %r" % (
+                    spec_id(runs[ti].spec), runs[ti].T.overlaps()[:3]))
+    nbad_or, nbad_impl = 0, 0
+    for (ti, toks, rendered), v in zip(sel, vals):
+        tr = runs[ti]
+        T = tr.T
+        if v == "None" or v == ("None",):
+            cl = None
+        elif isinstance(v, tuple) and v[0] == "Some":
+            cl = coq_tree_to_py(v[1])
+        else:
+            ctx.broken("correspondence:unexpected value of Climb.climb_all: %r" % (v,))
+            return
+        # Coq spec vs the Python precedence parser, on the same tokens
+        try:
+            py = oracle_parse(T, toks)[0]
+        except Reject:
+            py = None
+        except RecursionError:
+            continue
+        ctx.stat("climb_vs_python_oracle_compared")
+        if py != cl:
+            nbad_or += 1
+            if nbad_or <= 3:
+                ctx.broken("correspondence:Climb.climb_all != python precedence parser table=%s tokens=%r coq=%r python=%r" % (
+                    spec_id(tr.spec), toks, cl, py))
+            continue
+        # Coq spec vs the implementation, on the rendering
+        res = check_input(tr, rendered, modes=MODES[:1])
+        rv = res["rv"]
+        ctx.stat("climb_vs_impl_compared")
+        in_scope = coq_no_overlap.get(ti, False)
+        if in_scope:
+            ctx.stat("climb_vs_impl_compared_under_theorem_hypotheses")
+        agree = (rv == ("ok", [cl])) if cl is not None else rv[0] == "fail"
+        ctx.case(json.dumps(["climb", spec_id(tr.spec), rendered]), cl is not None and len(leaves(cl)) >= 5, agree)
+        if agree:
+            continue
+        nbad_impl += 1
+        ctx.stat("climb_vs_impl_disagreements")
+        if in_scope or not T.overlaps():
+            # no overlapping spellings: the theorem's hypothesis (or its analogue outside the covered shapes) holds
+            ctx.violation("climb:%s:%r" % (spec_id(tr.spec), rendered),
+                          "infix_notation table %s (no overlapping spellings) on %r (tokens %r): implementation %s, precedence climbing "
+                          "over the tokens (Coq Climb.climb_all) gives %r%s" % (
+                              spec_id(tr.spec), rendered, toks, describe_rv(rv), cl,
+                              " [the table meets the hypotheses of C16_climb_partial]" if in_scope else ""),
+                          {"kind": "oracle", "spec": tr.spec, "input": rendered, "mode": ["none"]})
+        elif res["problems"]:
+            # overlapping spellings: must be explained by one of the F-16 keys (anything else gets a fresh key and alarms)
+            report_problems(ctx, tr, rendered, res, ref_agrees=None, shrink=False)
+
+
 def correspond(ctx):
     corr.ensure_driver()
     rng = ctx.rng
@@ -1378,6 +1507,7 @@ def correspond(ctx):
     specs = make_tables(ctx, rng, n_random)
     ng, nb = (7, 7) if not ctx.thorough else (10, 10)
     _, runs, cases = run_tables(ctx, specs, ng, nb, with_model=True)
+    run_climb_tie(ctx, runs, cases)
     run_witnesses(ctx)
     shown = 0
     for (ti, ii), (inp, res) in sorted(cases.items()):
